@@ -11,6 +11,7 @@ import (
 	"sort"
 	"sync"
 	"sync/atomic"
+	"time"
 	"unsafe"
 
 	"github.com/syndtr/goleveldb/leveldb/util"
@@ -366,6 +367,11 @@ type Cache struct {
 	cacher Cacher
 	closed bool
 
+	// closing is set when Close begins; inflight counts the operations
+	// that are between enter and leave.
+	closing  int32
+	inflight int32
+
 	statNodes  int64
 	statSize   int64
 	statGrow   int32
@@ -393,6 +399,28 @@ func NewCache(cacher Cacher) *Cache {
 		cacher: cacher,
 	}
 	return r
+}
+
+// enter registers an in-flight operation and takes the read lock. It returns
+// false, holding nothing, once Close has begun or finished.
+func (r *Cache) enter() bool {
+	atomic.AddInt32(&r.inflight, 1)
+	if atomic.LoadInt32(&r.closing) != 0 {
+		atomic.AddInt32(&r.inflight, -1)
+		return false
+	}
+	r.mu.RLock()
+	if r.closed {
+		r.leave()
+		return false
+	}
+	return true
+}
+
+// leave ends an operation begun by a successful enter.
+func (r *Cache) leave() {
+	r.mu.RUnlock()
+	atomic.AddInt32(&r.inflight, -1)
 }
 
 func (r *Cache) getBucket(hash uint32) (*mHead, *mBucket) {
@@ -473,11 +501,10 @@ func (r *Cache) SetCapacity(capacity int) {
 // The returned 'cache handle' should be released after use by calling Release
 // method.
 func (r *Cache) Get(ns, key uint64, setFunc func() (size int, value Value)) *Handle {
-	r.mu.RLock()
-	defer r.mu.RUnlock()
-	if r.closed {
+	if !r.enter() {
 		return nil
 	}
+	defer r.leave()
 
 	hash := murmur32(ns, key, 0xf00)
 	for {
@@ -533,11 +560,10 @@ func (r *Cache) Get(ns, key uint64, setFunc func() (size int, value Value)) *Han
 //
 // Delete return true is such 'cache node' exist.
 func (r *Cache) Delete(ns, key uint64, delFunc func()) bool {
-	r.mu.RLock()
-	defer r.mu.RUnlock()
-	if r.closed {
+	if !r.enter() {
 		return false
 	}
+	defer r.leave()
 
 	hash := murmur32(ns, key, 0xf00)
 	for {
@@ -573,11 +599,10 @@ func (r *Cache) Delete(ns, key uint64, delFunc func()) bool {
 //
 // Evict return true is such 'cache node' exist.
 func (r *Cache) Evict(ns, key uint64) bool {
-	r.mu.RLock()
-	defer r.mu.RUnlock()
-	if r.closed {
+	if !r.enter() {
 		return false
 	}
+	defer r.leave()
 
 	hash := murmur32(ns, key, 0xf00)
 	for {
@@ -602,11 +627,10 @@ func (r *Cache) Evict(ns, key uint64) bool {
 // EvictNS evicts 'cache node' with the given namespace. This will
 // simply call Cacher.Evict on all nodes with the given namespace.
 func (r *Cache) EvictNS(ns uint64) {
-	r.mu.RLock()
-	defer r.mu.RUnlock()
-	if r.closed {
+	if !r.enter() {
 		return
 	}
+	defer r.leave()
 
 	if r.cacher != nil {
 		nodes := r.enumerateNodesByNS(ns)
@@ -626,11 +650,10 @@ func (r *Cache) evictAll() {
 
 // EvictAll evicts all 'cache node'. This will simply call Cacher.EvictAll.
 func (r *Cache) EvictAll() {
-	r.mu.RLock()
-	defer r.mu.RUnlock()
-	if r.closed {
+	if !r.enter() {
 		return
 	}
+	defer r.leave()
 
 	if r.cacher != nil {
 		r.evictAll()
@@ -645,6 +668,16 @@ func (r *Cache) EvictAll() {
 // even if the 'node ref' is not zero.
 func (r *Cache) Close(force bool) {
 	var head *mHead
+	// Refuse new operations and let the in-flight ones finish before queueing
+	// for the write lock. An operation may take the read lock a second time
+	// while it holds it: releasing a node that its own promotion or eviction
+	// pushed out of the cacher ends in unRefExternal. A writer queued in
+	// between would block that nested read lock, and with it the operation
+	// and the writer itself, for ever.
+	atomic.StoreInt32(&r.closing, 1)
+	for atomic.LoadInt32(&r.inflight) != 0 {
+		time.Sleep(50 * time.Microsecond)
+	}
 	// Hold RW-lock to make sure no more in-flight operations.
 	r.mu.Lock()
 	if !r.closed {
